@@ -1,42 +1,452 @@
 import Props.Defs
+import Proofs.SortLemmas
 namespace Coma.Proofs
 open Coma Coma.Spec
 
+/-! ### dedupByKey -/
+
+/-- the survivors of `dedupByKey` form a sublist of the key-sorted input -/
+theorem dedupByKey_sublist (key : Pr → Int) (ps : List Pr) :
+    (dedupByKey key ps).Sublist (isort key ps) := by
+  have h := filterMap_minBy?_sublist Pr.dist (groupAdj key (isort key ps))
+  rw [groupAdj_flatten] at h
+  exact h
+
+theorem dedupByKey_mem (key : Pr → Int) (ps : List Pr) (p : Pr) (h : p ∈ dedupByKey key ps) :
+    p ∈ ps :=
+  (mem_isort key ps p).1 ((dedupByKey_sublist key ps).subset h)
+
+/-- duplicate-freeness of any projection survives `dedupByKey` -/
+theorem dedupByKey_nodup_map {β} (key : Pr → Int) (g : Pr → β) (ps : List Pr)
+    (h : (ps.map g).Nodup) : ((dedupByKey key ps).map g).Nodup :=
+  ((dedupByKey_sublist key ps).map g).nodup (((isort_perm key ps).map g).nodup_iff.2 h)
+
+/-- the keys of the survivors are strictly increasing -/
+theorem dedupByKey_keys_lt (key : Pr → Int) (ps : List Pr) :
+    ((dedupByKey key ps).map key).Pairwise (· < ·) := by
+  rw [List.pairwise_map]
+  unfold dedupByKey
+  refine List.Pairwise.filterMap (minBy? Pr.dist) ?_
+    (groupAdj_sorted key _ (isort_sorted key ps))
+  intro g g' hgg' b hb b' hb'
+  exact hgg' b (minBy?_some _ _ _ hb).1 b' (minBy?_some _ _ _ hb').1
+
+theorem dedupByKey_keys_nodup (key : Pr → Int) (ps : List Pr) :
+    ((dedupByKey key ps).map key).Nodup :=
+  (dedupByKey_keys_lt key ps).imp (fun h => Int.ne_of_lt h)
+
+/-- every key of the input survives, and the survivor has minimal distance for its key -/
+theorem dedupByKey_min (key : Pr → Int) (ps : List Pr) (p : Pr) (hp : p ∈ ps) :
+    ∃ m ∈ dedupByKey key ps, key m = key p ∧ ∀ x ∈ ps, key x = key p → m.dist ≤ x.dist := by
+  have hp' : p ∈ isort key ps := (mem_isort key ps p).2 hp
+  obtain ⟨g, hg, hpg⟩ := exists_group_of_mem key _ p hp'
+  obtain ⟨m, hm⟩ := minBy?_isSome Pr.dist g (groupAdj_ne_nil key _ g hg)
+  have hmg := minBy?_some Pr.dist g m hm
+  have hkey := groupAdj_key_eq key _ g hg
+  refine ⟨m, List.mem_filterMap.2 ⟨g, hg, hm⟩, hkey m hmg.1 p hpg, ?_⟩
+  intro x hx hxp
+  have hx' : x ∈ isort key ps := (mem_isort key ps x).2 hx
+  obtain ⟨g', hg', hxg'⟩ := exists_group_of_mem key _ x hx'
+  -- `x` lies in the same group as `p` since groups have pairwise distinct keys
+  have hsame : g' = g :=
+    groupAdj_unique key _ (isort_sorted key ps) g' g hg' hg x p hxg' hpg hxp
+  subst hsame
+  exact hmg.2 x hxg'
+
+/-- `dedupByKey` commutes with a map preserving key and distance -/
+theorem dedupByKey_map (f : Pr → Pr) (key : Pr → Int) (hk : ∀ p, key (f p) = key p)
+    (hd : ∀ p, (f p).dist = p.dist) (ps : List Pr) :
+    dedupByKey key (ps.map f) = (dedupByKey key ps).map f := by
+  unfold dedupByKey
+  rw [isort_map f key key hk, groupAdj_map f key key hk, List.filterMap_map, List.map_filterMap]
+  congr 1
+  funext g
+  simp only [Function.comp]
+  rw [minBy?_map f Pr.dist Pr.dist hd]
+
+/-! ### labels -/
+
+theorem labelsFwd_pos (i : Int) (ps : List Int) : (labelsFwd i ps).map Lbl.pos = ps := by
+  induction ps generalizing i with
+  | nil => rfl
+  | cons p ps ih => simp [labelsFwd, ih]
+
+theorem labelsRev_pos (i e : Int) (ps : List Int) :
+    (labelsRev i e ps).map Lbl.pos = ps.map (fun p => e - p) := by
+  induction ps generalizing i with
+  | nil => rfl
+  | cons p ps ih => simp [labelsRev, ih]
+
+theorem labelsFwd_site_ge (i : Int) (ps : List Int) : ∀ l ∈ labelsFwd i ps, i ≤ l.site := by
+  induction ps generalizing i with
+  | nil => intro l hl; cases hl
+  | cons p ps ih =>
+    intro l hl
+    simp only [labelsFwd, List.mem_cons] at hl
+    rcases hl with rfl | hl
+    · exact Int.le_refl _
+    · have := ih (i + 1) l hl; omega
+
+theorem labelsRev_site_le (i e : Int) (ps : List Int) : ∀ l ∈ labelsRev i e ps, l.site ≤ i := by
+  induction ps generalizing i with
+  | nil => intro l hl; cases hl
+  | cons p ps ih =>
+    intro l hl
+    simp only [labelsRev, List.mem_cons] at hl
+    rcases hl with rfl | hl
+    · exact Int.le_refl _
+    · have := ih (i - 1) l hl; omega
+
+theorem labelsFwd_site_lt (i : Int) (ps : List Int) :
+    ((labelsFwd i ps).map Lbl.site).Pairwise (· < ·) := by
+  induction ps generalizing i with
+  | nil => simp [labelsFwd]
+  | cons p ps ih =>
+    simp only [labelsFwd, List.map_cons, List.pairwise_cons]
+    refine ⟨?_, ih (i + 1)⟩
+    intro s hs
+    obtain ⟨l, hl, rfl⟩ := List.mem_map.1 hs
+    have := labelsFwd_site_ge (i + 1) ps l hl; omega
+
+theorem labelsRev_site_gt (i e : Int) (ps : List Int) :
+    ((labelsRev i e ps).map Lbl.site).Pairwise (· > ·) := by
+  induction ps generalizing i with
+  | nil => simp [labelsRev]
+  | cons p ps ih =>
+    simp only [labelsRev, List.map_cons, List.pairwise_cons]
+    refine ⟨?_, ih (i - 1)⟩
+    intro s hs
+    obtain ⟨l, hl, rfl⟩ := List.mem_map.1 hs
+    have := labelsRev_site_le (i - 1) e ps l hl; omega
+
+theorem labels_site_nodup (m : OMap) (rev : Bool) : ((m.labels rev).map Lbl.site).Nodup := by
+  unfold OMap.labels
+  split
+  · exact (labelsRev_site_gt _ _ _).imp (fun h => Int.ne_of_gt h)
+  · exact (labelsFwd_site_lt _ _).imp (fun h => Int.ne_of_lt h)
+
+theorem labels_pos_asc (m : OMap) (rev : Bool) (h : Ascending m.positions) :
+    ((m.labels rev).map Lbl.pos).Pairwise (· ≤ ·) := by
+  unfold OMap.labels
+  split
+  · rw [labelsRev_pos, List.pairwise_map, List.pairwise_reverse]
+    exact h.imp (fun {a b} hab => by omega)
+  · rw [labelsFwd_pos]; exact h
+
+/-! ### window -/
+
+theorem window_sublist (lo hi : Int) (xs : List Lbl) : (window lo hi xs).Sublist xs :=
+  (List.takeWhile_sublist _).trans (List.dropWhile_sublist _)
+
+theorem mem_dropWhile_sorted (lo : Int) (xs : List Lbl) (h : (xs.map Lbl.pos).Pairwise (· ≤ ·))
+    (x : Lbl) : x ∈ xs.dropWhile (fun x => decide (x.pos < lo)) ↔ x ∈ xs ∧ lo ≤ x.pos := by
+  induction xs with
+  | nil => simp
+  | cons y ys ih =>
+    rw [List.map_cons, List.pairwise_cons] at h
+    rw [List.dropWhile_cons]
+    by_cases hy : y.pos < lo
+    · simp only [hy, decide_true, if_true]
+      rw [ih h.2, List.mem_cons]
+      constructor
+      · rintro ⟨h1, h2⟩; exact ⟨Or.inr h1, h2⟩
+      · rintro ⟨h1 | h1, h2⟩
+        · subst h1; omega
+        · exact ⟨h1, h2⟩
+    · simp only [hy, decide_false]
+      constructor
+      · intro hx
+        refine ⟨hx, ?_⟩
+        rcases List.mem_cons.1 hx with rfl | hx'
+        · omega
+        · have := h.1 _ (List.mem_map_of_mem (f := Lbl.pos) hx'); omega
+      · exact fun hx => hx.1
+
+theorem mem_takeWhile_sorted (hi : Int) (xs : List Lbl) (h : (xs.map Lbl.pos).Pairwise (· ≤ ·))
+    (x : Lbl) : x ∈ xs.takeWhile (fun x => decide (x.pos ≤ hi)) ↔ x ∈ xs ∧ x.pos ≤ hi := by
+  induction xs with
+  | nil => simp
+  | cons y ys ih =>
+    rw [List.map_cons, List.pairwise_cons] at h
+    rw [List.takeWhile_cons]
+    by_cases hy : y.pos ≤ hi
+    · simp only [hy, decide_true, if_true]
+      rw [List.mem_cons, ih h.2, List.mem_cons]
+      constructor
+      · rintro (h1 | ⟨h1, h2⟩)
+        · subst h1; exact ⟨Or.inl rfl, hy⟩
+        · exact ⟨Or.inr h1, h2⟩
+      · rintro ⟨h1 | h1, h2⟩
+        · exact Or.inl h1
+        · exact Or.inr ⟨h1, h2⟩
+    · simp only [hy, decide_false]
+      constructor
+      · intro hx; simp at hx
+      · rintro ⟨hx, hxh⟩
+        exfalso
+        rcases List.mem_cons.1 hx with rfl | hx'
+        · exact hy hxh
+        · have := h.1 _ (List.mem_map_of_mem (f := Lbl.pos) hx'); omega
+
+/-- on a position-sorted list the window holds exactly the labels with `lo ≤ pos ≤ hi` -/
+theorem mem_window (lo hi : Int) (xs : List Lbl) (h : (xs.map Lbl.pos).Pairwise (· ≤ ·))
+    (x : Lbl) : x ∈ window lo hi xs ↔ x ∈ xs ∧ lo ≤ x.pos ∧ x.pos ≤ hi := by
+  unfold window
+  have hd : ((xs.dropWhile (fun x => decide (x.pos < lo))).map Lbl.pos).Pairwise (· ≤ ·) :=
+    List.Pairwise.sublist ((List.dropWhile_sublist _).map Lbl.pos) h
+  rw [mem_takeWhile_sorted hi _ hd, mem_dropWhile_sorted lo xs h]
+  exact and_assoc
+
+theorem refWindow_sublist (md : Int) (ref : OMap) (start stop : Int) :
+    (refWindow md ref start stop).Sublist (ref.labels false) :=
+  window_sublist _ _ _
+
+theorem refWindow_site_nodup (md : Int) (ref : OMap) (start stop : Int) :
+    ((refWindow md ref start stop).map Lbl.site).Nodup :=
+  ((refWindow_sublist md ref start stop).map Lbl.site).nodup (labels_site_nodup ref false)
+
+/-! ### candidates / dedup -/
+
+theorem mem_candidates (md start it : Int) (refs qs : List Lbl) (p : Pr) :
+    p ∈ candidates md start it refs qs ↔
+      ∃ r ∈ refs, ∃ q ∈ window (r.pos - start - md) (r.pos - start + md) qs,
+        p = { r := r, q := q, shift := q.pos - (r.pos - start), src := it } := by
+  unfold candidates
+  simp only [List.mem_flatMap, List.mem_map]
+  constructor
+  · rintro ⟨r, hr, q, hq, rfl⟩; exact ⟨r, hr, q, hq, rfl⟩
+  · rintro ⟨r, hr, q, hq, rfl⟩; exact ⟨r, hr, q, hq, rfl⟩
+
+theorem dedup_mem (ps : List Pr) (p : Pr) (h : p ∈ dedup ps) : p ∈ ps :=
+  dedupByKey_mem _ _ _ (dedupByKey_mem _ _ _ h)
+
+theorem dedup_rsite_nodup (ps : List Pr) : ((dedup ps).map (fun p => p.r.site)).Nodup :=
+  dedupByKey_keys_nodup _ _
+
+theorem dedup_qsite_nodup (ps : List Pr) : ((dedup ps).map (fun p => p.q.site)).Nodup :=
+  dedupByKey_nodup_map _ _ _ (dedupByKey_keys_nodup _ _)
+
+/-! ### projections of the engine output -/
+
+theorem filterMap_ref_pair (ps : List Pr) :
+    (ps.map APos.pair).filterMap refLabel? = ps.map (fun p => p.r) := by
+  induction ps with
+  | nil => rfl
+  | cons p ps ih => simp only [List.map_cons, List.filterMap_cons, refLabel?, ih]
+
+theorem filterMap_ref_uref (rs : List Lbl) : (rs.map APos.uref).filterMap refLabel? = rs := by
+  induction rs with
+  | nil => rfl
+  | cons p ps ih => simp only [List.map_cons, List.filterMap_cons, refLabel?, ih]
+
+theorem filterMap_ref_uqry (qs : List Lbl) (s : Int) :
+    (qs.map (fun q => APos.uqry q s)).filterMap refLabel? = [] := by
+  induction qs with
+  | nil => rfl
+  | cons p ps ih => simp only [List.map_cons, List.filterMap_cons, refLabel?, ih]
+
+theorem filterMap_qry_pair (ps : List Pr) :
+    (ps.map APos.pair).filterMap qryLabel? = ps.map (fun p => p.q) := by
+  induction ps with
+  | nil => rfl
+  | cons p ps ih => simp only [List.map_cons, List.filterMap_cons, qryLabel?, ih]
+
+theorem filterMap_qry_uref (rs : List Lbl) : (rs.map APos.uref).filterMap qryLabel? = [] := by
+  induction rs with
+  | nil => rfl
+  | cons p ps ih => simp only [List.map_cons, List.filterMap_cons, qryLabel?, ih]
+
+theorem filterMap_qry_uqry (qs : List Lbl) (s : Int) :
+    (qs.map (fun q => APos.uqry q s)).filterMap qryLabel? = qs := by
+  induction qs with
+  | nil => rfl
+  | cons p ps ih => simp only [List.map_cons, List.filterMap_cons, qryLabel?, ih]
+
+theorem filterMap_pair_pair (ps : List Pr) : (ps.map APos.pair).filterMap APos.pair? = ps := by
+  induction ps with
+  | nil => rfl
+  | cons p ps ih => simp only [List.map_cons, List.filterMap_cons, APos.pair?, ih]
+
+theorem filterMap_pair_uref (rs : List Lbl) : (rs.map APos.uref).filterMap APos.pair? = [] := by
+  induction rs with
+  | nil => rfl
+  | cons p ps ih => simp only [List.map_cons, List.filterMap_cons, APos.pair?, ih]
+
+theorem filterMap_pair_uqry (qs : List Lbl) (s : Int) :
+    (qs.map (fun q => APos.uqry q s)).filterMap APos.pair? = [] := by
+  induction qs with
+  | nil => rfl
+  | cons p ps ih => simp only [List.map_cons, List.filterMap_cons, APos.pair?, ih]
+
+/-- selecting some labels and then the rest (by site id) rearranges the list -/
+theorem select_perm (l sel : List Lbl) (sites : List Int) (hsites : sites = sel.map Lbl.site)
+    (hl : (l.map Lbl.site).Nodup) (hs : (sel.map Lbl.site).Nodup) (hsub : ∀ x ∈ sel, x ∈ l) :
+    (sel ++ l.filter (fun x => !sites.contains x.site)).Perm l := by
+  subst hsites
+  have hlnd : l.Nodup := nodup_of_nodup_map Lbl.site hl
+  have hsnd : sel.Nodup := nodup_of_nodup_map Lbl.site hs
+  have hinj := inj_of_nodup_map Lbl.site hl
+  have hfilt : ∀ x, x ∈ l.filter (fun x => !(sel.map Lbl.site).contains x.site) ↔
+      x ∈ l ∧ x.site ∉ sel.map Lbl.site := by
+    intro x
+    simp only [List.mem_filter, Bool.not_eq_true', List.contains_eq_mem, decide_eq_false_iff_not]
+  refine (List.perm_ext_iff_of_nodup ?_ hlnd).2 ?_
+  · rw [List.nodup_append]
+    refine ⟨hsnd, hlnd.sublist List.filter_sublist, ?_⟩
+    intro a ha b hb hab
+    subst hab
+    exact ((hfilt a).1 hb).2 (List.mem_map_of_mem ha)
+  · intro x
+    rw [List.mem_append, hfilt]
+    constructor
+    · rintro (h | h)
+      · exact hsub x h
+      · exact h.1
+    · intro hx
+      by_cases hc : x.site ∈ sel.map Lbl.site
+      · left
+        obtain ⟨y, hy, hyx⟩ := List.mem_map.1 hc
+        have : y = x := hinj y (hsub y hy) x hx hyx
+        exact this ▸ hy
+      · exact Or.inr ⟨hx, hc⟩
+
+/-! ### the engine -/
+
+/-- the list that `engineAlign` sorts -/
+def engineRaw (md : Int) (ref qry : OMap) (start stop : Int) (rev : Bool) (it : Int) : List APos :=
+  let refs  := refWindow md ref start stop
+  let qs    := qry.labels rev
+  let pairs := dedup (candidates md start it refs qs)
+  pairs.map APos.pair ++ unpaired refs qs pairs start
+
+theorem engineAlign_eq (md : Int) (ref qry : OMap) (start stop : Int) (rev : Bool) (it : Int) :
+    engineAlign md ref qry start stop rev it
+      = isort APos.abs (engineRaw md ref qry start stop rev it) := rfl
+
+theorem engineAlign_perm (md : Int) (ref qry : OMap) (start stop : Int) (rev : Bool) (it : Int) :
+    (engineAlign md ref qry start stop rev it).Perm (engineRaw md ref qry start stop rev it) :=
+  isort_perm _ _
+
+theorem mem_engineAlign (md : Int) (ref qry : OMap) (start stop : Int) (rev : Bool) (it : Int)
+    (a : APos) : a ∈ engineAlign md ref qry start stop rev it ↔
+      a ∈ engineRaw md ref qry start stop rev it :=
+  (engineAlign_perm md ref qry start stop rev it).mem_iff
+
+theorem pair_mem_engineRaw (md : Int) (ref qry : OMap) (start stop : Int) (rev : Bool) (it : Int)
+    (p : Pr) : APos.pair p ∈ engineRaw md ref qry start stop rev it ↔
+      p ∈ dedup (candidates md start it (refWindow md ref start stop) (qry.labels rev)) := by
+  simp [engineRaw, unpaired]
+
+theorem pairsOf_engineRaw (md : Int) (ref qry : OMap) (start stop : Int) (rev : Bool) (it : Int) :
+    pairsOf (engineRaw md ref qry start stop rev it)
+      = dedup (candidates md start it (refWindow md ref start stop) (qry.labels rev)) := by
+  simp only [pairsOf, engineRaw, unpaired, List.filterMap_append, filterMap_pair_pair,
+    filterMap_pair_uref, filterMap_pair_uqry, List.append_nil]
+
 theorem engine_sorted (md : Int) (ref qry : OMap) (start stop : Int) (rev : Bool) (it : Int) :
-    Ascending ((engineAlign md ref qry start stop rev it).map APos.abs) := by
-  sorry
+    Ascending ((engineAlign md ref qry start stop rev it).map APos.abs) :=
+  isort_sorted _ _
+
+/-- members of the deduplicated candidate list join labels of the two inputs -/
+theorem pairs_mem (md start it : Int) (refs qs : List Lbl) (p : Pr)
+    (hp : p ∈ dedup (candidates md start it refs qs)) :
+    p.r ∈ refs ∧ p.q ∈ window (p.r.pos - start - md) (p.r.pos - start + md) qs ∧
+      p.shift = p.q.pos - (p.r.pos - start) := by
+  obtain ⟨r, hr, q, hq, rfl⟩ := (mem_candidates md start it refs qs p).1 (dedup_mem _ _ hp)
+  exact ⟨hr, hq, rfl⟩
 
 theorem engine_partition_ref (md : Int) (ref qry : OMap) (start stop : Int) (rev : Bool) (it : Int) :
     ((engineAlign md ref qry start stop rev it).filterMap refLabel?).Perm (refWindow md ref start stop) := by
-  sorry
+  refine ((engineAlign_perm md ref qry start stop rev it).filterMap refLabel?).trans ?_
+  simp only [engineRaw, unpaired, List.filterMap_append, filterMap_ref_pair,
+    filterMap_ref_uref, filterMap_ref_uqry, List.append_nil]
+  refine select_perm _ _ _ (by rw [List.map_map]; rfl) (refWindow_site_nodup md ref start stop) ?_ ?_
+  · rw [List.map_map]; exact dedup_rsite_nodup _
+  · intro x hx
+    obtain ⟨p, hp, rfl⟩ := List.mem_map.1 hx
+    exact (pairs_mem md start it _ _ p hp).1
 
 theorem engine_partition_qry (md : Int) (ref qry : OMap) (start stop : Int) (rev : Bool) (it : Int) :
     ((engineAlign md ref qry start stop rev it).filterMap qryLabel?).Perm (qry.labels rev) := by
-  sorry
+  refine ((engineAlign_perm md ref qry start stop rev it).filterMap qryLabel?).trans ?_
+  simp only [engineRaw, unpaired, List.filterMap_append, filterMap_qry_pair,
+    filterMap_qry_uref, filterMap_qry_uqry, List.nil_append]
+  refine select_perm _ _ _ (by rw [List.map_map]; rfl) (labels_site_nodup qry rev) ?_ ?_
+  · rw [List.map_map]; exact dedup_qsite_nodup _
+  · intro x hx
+    obtain ⟨p, hp, rfl⟩ := List.mem_map.1 hx
+    exact (window_sublist _ _ _).subset (pairs_mem md start it _ _ p hp).2.1
 
 theorem refWindow_mem (md : Int) (ref : OMap) (start stop : Int) (hr : Ascending ref.positions) (l : Lbl) :
-    l ∈ refWindow md ref start stop ↔ (l ∈ ref.labels false ∧ start - md ≤ l.pos ∧ l.pos ≤ stop + md) := by
-  sorry
+    l ∈ refWindow md ref start stop ↔ (l ∈ ref.labels false ∧ start - md ≤ l.pos ∧ l.pos ≤ stop + md) :=
+  mem_window _ _ _ (labels_pos_asc ref false hr) l
 
 theorem engine_within (md : Int) (ref qry : OMap) (start stop : Int) (rev : Bool) (it : Int)
     (hq : Ascending qry.positions) (p : Pr)
     (hp : APos.pair p ∈ engineAlign md ref qry start stop rev it) :
     p.r ∈ refWindow md ref start stop ∧ p.q ∈ qry.labels rev ∧
     p.shift = offset start p.r p.q ∧ -md ≤ p.shift ∧ p.shift ≤ md := by
-  sorry
+  rw [mem_engineAlign, pair_mem_engineRaw] at hp
+  obtain ⟨h1, h2, h3⟩ := pairs_mem md start it _ _ p hp
+  rw [mem_window _ _ _ (labels_pos_asc qry rev hq)] at h2
+  obtain ⟨h2a, h2b, h2c⟩ := h2
+  refine ⟨h1, h2a, h3, ?_, ?_⟩ <;> omega
 
 theorem engine_uqry_seed (md : Int) (ref qry : OMap) (start stop : Int) (rev : Bool) (it : Int)
     (q : Lbl) (s : Int) (h : APos.uqry q s ∈ engineAlign md ref qry start stop rev it) : s = start := by
-  sorry
+  rw [mem_engineAlign] at h
+  simp only [engineRaw, unpaired, List.mem_append, List.mem_map] at h
+  rcases h with ⟨p, _, hp⟩ | ⟨r, _, hr⟩ | ⟨q', _, hq'⟩
+  · cases hp
+  · cases hr
+  · cases hq'; rfl
 
 theorem engine_one_to_one (md : Int) (ref qry : OMap) (start stop : Int) (rev : Bool) (it : Int) :
     ((pairsOf (engineAlign md ref qry start stop rev it)).map (fun p => p.r.site)).Nodup ∧
     ((pairsOf (engineAlign md ref qry start stop rev it)).map (fun p => p.q.site)).Nodup := by
-  sorry
+  have hperm : (pairsOf (engineAlign md ref qry start stop rev it)).Perm
+      (dedup (candidates md start it (refWindow md ref start stop) (qry.labels rev))) := by
+    rw [← pairsOf_engineRaw]
+    exact (engineAlign_perm md ref qry start stop rev it).filterMap _
+  exact ⟨(hperm.map _).nodup_iff.2 (dedup_rsite_nodup _),
+         (hperm.map _).nodup_iff.2 (dedup_qsite_nodup _)⟩
+
+/-! ### the iteration counter is unobservable -/
+
+def setSrc (it : Int) (p : Pr) : Pr := { p with src := it }
+
+theorem candidates_setSrc (md start it it' : Int) (refs qs : List Lbl) :
+    (candidates md start it' refs qs).map (setSrc it) = candidates md start it refs qs := by
+  unfold candidates
+  induction refs with
+  | nil => rfl
+  | cons r rs ih =>
+    simp only [List.flatMap_cons, List.map_append, ih, List.map_map]
+    rfl
+
+theorem dedup_map (f : Pr → Pr) (hr : ∀ p, (f p).r = p.r) (hq : ∀ p, (f p).q = p.q)
+    (hd : ∀ p, (f p).dist = p.dist) (ps : List Pr) :
+    dedup (ps.map f) = (dedup ps).map f := by
+  unfold dedup
+  rw [dedupByKey_map f _ (fun p => by simp only [hq]) hd,
+      dedupByKey_map f _ (fun p => by simp only [hr]) hd]
+
+theorem engineAlign_eraseSrc (md : Int) (ref qry : OMap) (start stop : Int) (rev : Bool) (it : Int) :
+    (engineAlign md ref qry start stop rev it).map APos.eraseSrc
+      = engineAlign md ref qry start stop rev 0 := by
+  rw [engineAlign_eq, engineAlign_eq,
+    ← isort_map APos.eraseSrc APos.abs APos.abs (fun a => by cases a <;> rfl)]
+  congr 1
+  simp only [engineRaw]
+  rw [← candidates_setSrc md start 0 it,
+    dedup_map (setSrc 0) (fun _ => rfl) (fun _ => rfl) (fun _ => rfl)]
+  generalize dedup (candidates md start it (refWindow md ref start stop) (qry.labels rev)) = pairs
+  simp only [unpaired, List.map_append, List.map_map]
+  rfl
 
 theorem engine_iteration_irrelevant (md : Int) (ref qry : OMap) (start stop : Int) (rev : Bool) (it it' : Int) :
     (engineAlign md ref qry start stop rev it).map APos.eraseSrc =
     (engineAlign md ref qry start stop rev it').map APos.eraseSrc := by
-  sorry
+  rw [engineAlign_eraseSrc, engineAlign_eraseSrc]
 
 end Coma.Proofs
